@@ -163,10 +163,12 @@ class Instance:
         if "name" in changes:
             # a field of its own, with its own options
             changes.setdefault("_Instance__is_element", False)
-        new_instance = replace(self, **changes)
         if is_dataclass(self.origin_type):
-            new_instance.__owner_builder = self.__self_builder
-        return new_instance
+            # the owner must be known while the new instance resolves its
+            # type: type variables of a field belong to the class that
+            # holds the field, not to the class above it
+            changes["_Instance__owner_builder"] = self.__self_builder
+        return replace(self, **changes)
 
     def derive_element(self, **changes: Any) -> "Instance":
         # the (de)serializers build collection elements without the field's
